@@ -25,6 +25,10 @@ Monitors (written against the property statements, evaluated after EVERY event):
       * every callback that reported SUCCESS: command executed at exactly one position (callback:*), and
         after the final heal every node's state contains it   restart:success-lost
       * the constructor / first tick never raise   restart:recovery-raises:<Exc>
+      * with `dynamicMembershipChange` (family `members`): after the first tick `otherNodes` == the membership
+        commands of the journal after the dump position folded over the dump's member list (the configured list
+        without a dump)   restart:members-not-fold-of-journal-over-dump; at quiescence all member sets agree
+        restart:member-sets-differ-at-quiescence
       * (finding D60) the reply to a command forwarded by an EARLIER run of a node is not taken as the reply
         to a command of its current run   restart:forward-reply-of-earlier-run-matched-to-new-request
  C07  * per (voter, term) at most one destination of `response_vote` (own candidacy = vote for itself)
@@ -74,6 +78,50 @@ def for_property(pid, sig):
     return not is7
 
 
+def dump_members(sim, dump_path):
+    """(member ids of the dump's cluster list, log position of the dump) or None when there is no readable dump"""
+    import gzip
+    if not dump_path or not os.path.isfile(dump_path):
+        return None
+    try:
+        with open(dump_path, "rb") as f:
+            with gzip.GzipFile(fileobj=f) as g:
+                data = sim.so.pickle.load(g)
+        return (set(getattr(n, "id", n) for n in data[3]), data[1][1])
+    except Exception:
+        return None
+
+
+def members_mismatch(sim, obj, i, V, dump):
+    """C06 with dynamicMembershipChange: after the first tick `otherNodes` is the dump's member list (the configured
+    one without a dump) with the membership commands of the journal AFTER the dump position carried out in order.
+    Returns a description of the difference or None."""
+    MEM = sim.so._COMMAND_TYPE.MEMBERSHIP
+    if dump is None:
+        members, pos = set(V), 0
+    else:
+        members, pos = set(dump[0]), dump[1]
+    members.discard(i)
+    cmds = []
+    for (cmd, idx, term) in obj._SyncObj__raftLog[:]:
+        if idx <= pos or not isinstance(cmd, bytes) or cmd[:1] != bytes([MEM]):
+            continue
+        req = sim.so.pickle.loads(cmd[1:])
+        cmds.append((idx, req[0], req[1]))
+        if req[1] == i:
+            continue
+        if req[0] == "add":
+            members.add(req[1])
+        elif req[0] == "rem":
+            members.discard(req[1])
+    have = set(n.id for n in obj.otherNodes)
+    if have != members:
+        return ("otherNodes of node %s after the restart: %s; the %s member list %s with the membership commands of its journal "
+                "after position %d %s gives %s" % (i, sorted(have), "dump's" if dump else "configured",
+                                                   sorted((dump[0] if dump else set(V)) - {i}), pos, cmds, sorted(members)))
+    return None
+
+
 class Killed(BaseException):
     """the process dies right after handing its n-th message of this step to the transport"""
 
@@ -103,6 +151,7 @@ class Runner(object):
         self.sim = Sim(repo, self.V, conf=conf, seed=spec.get("seed", 0), journal_dir=self.dir,
                        dump=bool(spec.get("dump")))
         self.has_dump_conf = bool(spec.get("dump"))
+        self.members = bool(conf.get("dynamicMembershipChange"))
         self.mon = monitors.StepMonitors(self.sim)
         self.events = []
         self.viol = []
@@ -197,11 +246,23 @@ class Runner(object):
             if not self.live(e[1]):
                 return False
             ctx["fresh"] = self.fresh.pop(e[1], None)
+            if ctx["fresh"] is not None and self.members:
+                ctx["dump"] = dump_members(sim, self._dump_path(e[1]))
             sim.tick(e[1], e[2])
+        elif k == "member":
+            # ["member", i, "add"|"rem", node id]: membership change submitted at node i
+            if not self.live(e[1]) or not self.members:
+                return False
+            o = sim.objs[e[1]]
+            sim.trace.append(["member", e[1], e[2], e[3]])
+            sim._call(e[1], o.addNodeToCluster if e[2] == "add" else o.removeNodeFromCluster, sim.Node(e[3]))
+            self.cov["member:" + e[2]] += 1
         elif k == "tick_k":
             if not self.live(e[1]):
                 return False
             ctx["fresh"] = self.fresh.pop(e[1], None)
+            if ctx["fresh"] is not None and self.members:
+                ctx["dump"] = dump_members(sim, self._dump_path(e[1]))
             self._killing(e[1], e[3], lambda: sim.tick(e[1], e[2]))
         elif k == "deliver":
             if not self.live(e[2]) or not sim.chan[(e[1], e[2])]:
@@ -319,6 +380,12 @@ class Runner(object):
                   "the same request id (ids start at 1 in every run); %s's reply to the OLD request (%s) is taken as the reply to %r"
                   % (b, g[0], m["request_id"], a, x, a,
                      ("error %r" % m["error"]) if "error" in m else ("accepted at index %r" % m.get("log_idx")), x))
+
+    def _dump_path(self, i):
+        for fn in ("%s.dump" % i, "%s.journal.dump" % i):
+            if os.path.isfile(os.path.join(self.dir, fn)):
+                return os.path.join(self.dir, fn)
+        return None
 
     def _pre_deliver(self, b):
         o = self.sim.objs[b]
@@ -511,6 +578,13 @@ class Runner(object):
         b = ctx.get("fresh")
         if b is not None and e[0] in ("tick", "tick_k") and self.live(e[1]):
             self._after_first_tick(e[1], b)
+            if self.members:
+                self.cov["restart:members-checked"] += 1
+                if ctx.get("dump"):
+                    self.cov["restart:members-checked-over-dump"] += 1
+                bad = members_mismatch(sim, sim.objs[e[1]], e[1], self.V, ctx.get("dump"))
+                if bad:
+                    self.flag("restart:members-not-fold-of-journal-over-dump", bad)
 
     def _after_first_tick(self, i, b):
         sim = self.sim
@@ -615,6 +689,13 @@ class Runner(object):
             self.cov["finale:not-converged"] += 1
             return
         self.cov["finale:converged"] += 1
+        if self.members:
+            sets = {i: frozenset(n.id for n in sim.objs[i].otherNodes) | {i} for i in self.V if i not in self.wedged}
+            self.cov["finale:member-sets-compared"] += 1
+            if len(set(sets.values())) > 1:
+                self.flag("restart:member-sets-differ-at-quiescence",
+                          "all nodes hold the same log and have applied it, their member sets differ: %s"
+                          % {i: sorted(v) for i, v in sorted(sets.items())})
         succ = {}
         for (n, cid, res, err) in sim.callbacks:
             if err == 0:
@@ -886,12 +967,63 @@ def base_conflict(r):
     return {"leader": N, "followers": [i for i in V if i != N], "old": L}
 
 
-BASES = {"vote": base_vote, "replication": base_replication, "snapshot": base_snapshot, "conflict": base_conflict}
+def base_members(r):
+    """dynamicMembershipChange: a (never reachable) node x joins and leaves, dumps are taken in between, and a deposed
+    leader holds an uncommitted `add y` that the new leader's log replaces"""
+    V = r.V
+    r.ev("connect_all")
+    L = r.elect()
+    if L is None:
+        return {}
+    r.ev("submit", L, "m0")
+    r.rounds(3)
+    r.ev("member", L, "add", "x")
+    r.rounds(5)
+    r.ev("submit", L, "m1")
+    r.rounds(4)
+    F = [i for i in V if i != L]
+    r.ev("compact", F[0])                     # dumps whose member list contains x
+    r.ev("compact", L)
+    r.rounds(2)
+    r.ev("member", L, "rem", "x")             # membership entry after the dump position
+    r.rounds(5)
+    r.ev("submit", L, "m2")
+    r.rounds(4)
+    if r.sim.leader() != L:
+        return {}
+    for j in F:
+        r.ev("cut", L, j)
+        r.ev("notice", L, j)
+        r.ev("notice", j, L)
+    r.ev("member", L, "add", "y")             # appended by the cut-off leader only
+    r.ev("tick", L, 0.0625)
+    r.ev("compact", L)                        # its dump must not contain y (position = lastApplied)
+    r.ev("tick", L, 0.0625)
+    r.ev("tick", L, 0.0625)
+    N = r.elect(among=F)
+    if N is None:
+        return {}
+    r.ev("submit", N, "n0")
+    r.rounds(3, among=F)
+    for j in F:
+        r.ev("connect", L, j)
+    r.rounds(8)
+    for v in V:
+        r.ev("compact", v)
+    r.rounds(2)
+    r.ev("submit", N, "m3")
+    r.rounds(4)
+    return {"leader": N, "followers": [i for i in V if i != N], "old": L}
+
+
+BASES = {"vote": base_vote, "replication": base_replication, "snapshot": base_snapshot, "conflict": base_conflict,
+         "members": base_members}
 # (conflict: one batch per tick — with several pipelined batches and a conflicting LAST entry on the follower
 #  the real code alternates between two reset replies forever; a progress matter (C05), see notes/restart.md)
 BASE_CONF = {"vote": {}, "replication": {"appendEntriesBatchSizeBytes": 24},
              "snapshot": {"logCompactionBatchSize": 16, "appendEntriesBatchSizeBytes": 24},
-             "conflict": {"appendEntriesBatchSizeBytes": 2 ** 16}}
+             "conflict": {"appendEntriesBatchSizeBytes": 2 ** 16},
+             "members": {"dynamicMembershipChange": True, "appendEntriesBatchSizeBytes": 64}}
 
 
 def record_base(repo, name, spec, tmpdir):
@@ -1090,6 +1222,9 @@ def plan(ctx):
         fam("snapshot", 3, True, 4, 1, ALL, 12)
         fam("conflict", 3, False, 4, 1, ALL, 12)
         fam("vote", 3, True, 3, 1, VOTE, 2)
+        fam("members", 3, True, 4, 1, ALL, 12)
+        fam("members", 3, False, 0, 1, ALL, 12)
+        fam("members", 4, True, 0, 2, ALL, 12)
         fam("replication", 5, True, 0, 1, ALL, 16)
         fam("replication", 4, False, 0, 1, ALL, 16)
         fam("replication", 3, False, 0, 1, ALL, 12)
